@@ -109,3 +109,15 @@ def cases(tier, seed, ctx=None):
     for j in range(4 if tier == "quick" else 24):
         rq = (b"POST /big HTTP/1.1\r\nContent-Length: 5\r\n\r\nhello" if j % 2 else b"POST /x HTTP/1.1\r\nContent-Length: 5\r\n\r\nhello")
         yield ("tlsraw", [rq, j % 4 // 2, 40, rng.choice([[], [7]]), 1, rng.choice([100000, 300000])], "%s-surplus-before-the-answer" % 'raw-client')
+    # a long life of ONE TLS server: 45 (100 in thorough) connections of every kind one after the other, then one more exchange
+    yield ("tls", [7, 45 if quick else 100], "server-history")
+
+    # over a real connection, TLS and plain: (a) the application waits for the write-progress notifications of a 3000-byte body
+    # before it closes - they add up to 3000; (b) a 3 MiB answer to a client that reads slowly - the server's thread keeps returning
+    # to its event loop meanwhile
+    for j in range(2 if tier == "quick" else 10):
+        yield ("tlsraw", [b"GET /notify HTTP/1.1\r\nHost: h\r\n\r\n", 0, 0, [], 1, 0, 0], "%s-notifications-before-close" % 'raw-client')
+    yield ("tlsraw", [b"GET /big HTTP/1.1\r\nHost: h\r\n\r\n", 0, 0, [], 1, 0, 2], "%s-slow-reader" % 'raw-client')
+    # the TLS configuration is set on a server that is already listening and has served n plain connections: TLS-only from then on
+    for n in (0, 1, 3):
+        yield ("tls", [8, n], "configured-while-serving")
